@@ -5,7 +5,7 @@ import copy
 import operator
 import signal
 
-from vf.model_patterns import isnode, COLLECT, PRED, INF
+from vf.model_patterns import isnode, COLLECT, PRED, INF, iv, Inval
 
 
 class RealTimeout(Exception):
@@ -60,6 +60,42 @@ PYOPS = {'add': operator.add, 'sub': operator.sub, 'mul': operator.mul,
          'ge': operator.ge, 'eq': operator.eq, 'ne': operator.ne}
 
 
+REPAIR = set()      # classifier only: class names built in a corrected form
+_fixed = {}
+
+
+def fixed_classes():
+    """Harness-side corrected variants of two embedding generators, used ONLY
+    to decide which mechanism explains a mismatch (never for a verdict)."""
+    if not _fixed:
+        m = mods()
+        stm = m['stm']
+
+        class PdropFixed(m['fp'].Pdrop):
+            def __embed__(self, inval):
+                stream = stm.stream(self.pattern)
+                try:
+                    for _ in range(self.n):
+                        stream.next(inval)
+                    while True:
+                        inval = yield stream.next(inval)
+                except stm.StopStream:
+                    pass
+                return inval
+
+        class ProutFixed(m['up'].Prout):
+            def __embed__(self, inval):
+                it = self.func(inval) if self._func_has_inval else self.func()
+                try:
+                    inval = yield next(it)
+                    while True:
+                        inval = yield it.send(inval)
+                except StopIteration as e:
+                    return e.value
+        _fixed.update(Pdrop=PdropFixed, Prout=ProutFixed)
+    return _fixed
+
+
 def build(x):
     """Real object for an AST; literals are deep-copied so that the library
     never shares structure with the model's input."""
@@ -69,12 +105,38 @@ def build(x):
     lp, fp, vp, up, bi = m['lp'], m['fp'], m['vp'], m['up'], m['bi']
     name = x[0]
     B = build
+    if REPAIR:
+        fx = fixed_classes()
+        if 'Pdrop' in REPAIR:
+            fp = type('fp', (), dict(vars(fp)))
+            fp.Pdrop = fx['Pdrop']
+        if 'Prout' in REPAIR:
+            up = type('up', (), dict(vars(up)))
+            up.Prout = fx['Prout']
     if name == 'Pseq':
         return lp.Pseq([B(i) for i in x[1]], x[2], x[3])
     if name == 'Pser':
         return lp.Pser([B(i) for i in x[1]], x[2], x[3])
     if name == 'Place':
         return lp.Place([B(i) for i in x[1]], x[2], x[3])
+    if name == 'PfuncnI':
+        a, b = x[1], x[2]
+        return up.Pfuncn(lambda inval: iv(inval) * a + b, x[3])
+    if name == 'ProutI':
+        a, vals = x[1], list(x[2])
+
+        def irout(inval):
+            for v in vals:
+                inval = yield iv(inval) * a + v
+            return inval
+        return up.Prout(irout)
+    if name == 'PcollectI':
+        a = x[1]
+        return fp.Pcollect(lambda v, inval: v + iv(inval) * a, B(x[2]))
+    if name == 'PlazyI':
+        a, vals = x[1], list(x[2])
+        return up.Plazy(lambda inval: lp.Pseq([v + iv(inval) * a for v in vals], 1)
+                        if vals else lp.Pseq([0], 0))
     if name == 'Pfuncn':
         v = x[1]
         return up.Pfuncn((lambda: v) if x[2] != 1 else (lambda inval: v), x[2])
@@ -87,9 +149,10 @@ def build(x):
     if name == 'Prout':
         vals = list(x[1])
 
-        def rout():
+        def rout(inval):      # embedding protocol: hand the input value on
             for v in vals:
-                yield v
+                inval = yield v
+            return inval
         return up.Prout(rout)
     if name == 'Placep':
         return lp.Placep([B(i) for i in x[1]], x[2], x[3])
@@ -257,6 +320,7 @@ def real_take(pat, n, how='iter', inval=None):
     m = mods()
     stm = m['stm']
     vals = []
+    sched = inval if isinstance(inval, Inval) else Inval(inval, 0)
     try:
         if how == 'iter':
             it = iter(pat)
@@ -269,18 +333,18 @@ def real_take(pat, n, how='iter', inval=None):
             s = stm.stream(pat)
             for _ in range(n):
                 try:
-                    vals.append(s.next(inval))
+                    vals.append(s.next(sched.at(len(vals))))
                 except stm.StopStream:
                     return vals, True, None
         elif how == 'embed':
-            g = stm.embed(pat, inval)
+            g = stm.embed(pat, sched.at(0))
             for _ in range(n):
                 try:
-                    vals.append(g.send(inval) if vals else next(g))
+                    vals.append(g.send(sched.at(len(vals))) if vals else next(g))
                 except StopIteration:
                     return vals, True, None
         elif how == 'all':
-            vals = stm.stream(pat).all(inval)
+            vals = stm.stream(pat).all(sched.at(0))
             return vals, True, None
         else:
             raise ValueError(how)
@@ -296,18 +360,20 @@ def _same_seq(a, b):
     return len(a) == len(b) and all(same_value(x, y) for x, y in zip(a, b))
 
 
-def after_end(pat, n, k, midway=None):
+def after_end(pat, n, k, midway=None, inval=None):
     """History on ONE stream: pull to the end, poll k more times, all(),
     reset(), pull again -> (first, values got after the end, second, exc)."""
     m = mods()
     stm = m['stm']
     s = stm.stream(pat)
 
+    sched = inval if isinstance(inval, Inval) else Inval(inval, 0)
+
     def pull():
         out = []
         for _ in range(n):
             try:
-                out.append(s.next(None))
+                out.append(s.next(sched.at(len(out))))
             except stm.StopStream:
                 return out, True
         return out, False
@@ -318,8 +384,8 @@ def after_end(pat, n, k, midway=None):
         if midway is not None and first:
             # reset after some values: the sequence starts again
             s.reset()
-            for _ in range(min(midway, len(first) - 1)):
-                s.next(None)
+            for j in range(min(midway, len(first) - 1)):
+                s.next(sched.at(j))
             s.reset()
             again, _ = pull()
             if again != first and not _same_seq(again, first):
@@ -327,11 +393,11 @@ def after_end(pat, n, k, midway=None):
         post = []
         for _ in range(k):
             try:
-                post.append(s.next(None))
+                post.append(s.next(sched.at(0)))
             except stm.StopStream:
                 pass
         if not post:
-            post = list(s.all())
+            post = list(s.all(sched.at(0)))
         s.reset()
         second, _ = pull()
         return first, post, second, None
@@ -341,11 +407,12 @@ def after_end(pat, n, k, midway=None):
         return None, None, None, e
 
 
-def interleaved(pat, n, rng):
+def interleaved(pat, n, rng, inval=None):
     """Two streams of one pattern consumed alternately (random schedule)."""
     m = mods()
     stm = m['stm']
     s = [stm.stream(pat), iter(pat)]
+    sched = inval if isinstance(inval, Inval) else Inval(inval, 0)
     out = [[], []]
     done = [False, False]
     exc = None
@@ -355,7 +422,7 @@ def interleaved(pat, n, rng):
             if done[i] or len(out[i]) >= n:
                 i = 1 - i
             try:
-                out[i].append(s[i].next(None) if i == 0 else next(s[i]))
+                out[i].append(s[i].next(sched.at(len(out[i]))))
             except StopIteration:       # StopStream is a StopIteration
                 done[i] = True
     except RealTimeout:
